@@ -235,6 +235,7 @@ func runCfg(run *rep.Run, c cfg, id int) {
 	}
 	if c.Strategy == "strict" {
 		aliasByDigest(run, c, st, hc, backs, N, id)
+		mixedCaseTwoDigests(run, c, st, hc, backs, N, id)
 	}
 }
 
@@ -286,6 +287,46 @@ func aliasByDigest(run *rep.Run, c cfg, st stack, hc *http.Client, backs []*back
 			oneCase(run, c, st, hc, backs, N, H, 3, "proxy", "exact+alias-by-digest", model, fmt.Sprintf("c%dal%dm%d", id, H, mi))
 			run.Count("alias_cases", 1)
 		}
+	}
+}
+
+// mixedCaseTwoDigests: e0 and e1 list the same mixed-case name (a Hugging Face style tag) with
+// different digests (two quantisation builds): two catalogue entries under one name. Both list
+// the name natively, so both are holders whatever Olla does with letter case on the way in.
+func mixedCaseTwoDigests(run *rep.Run, c cfg, st stack, hc *http.Client, backs []*backend.Std, N, id int) {
+	const name = "hf.co/Bartowski/Llama-3.2-1B-Instruct-GGUF:Q4_K_M"
+	tags := func(digest, filler string) []byte {
+		return []byte(fmt.Sprintf(`{"models":[{"name":%q,"model":%q,"size":807000000,"digest":"sha256:%s","details":{"family":"llama","format":"gguf","parameter_size":"1.2B","quantization_level":"Q4_K_M"}},{"name":%q,"model":%q,"size":1,"digest":"sha256:%x"}]}`, name, name, digest, filler, filler, filler))
+	}
+	for i, b := range backs {
+		st.setStatus(b.Name, true)
+		switch i {
+		case 0:
+			b.SetModelsRaw(200, tags("1111111111111111111111111111111111111111111111111111111111111111", "filler-"+b.Name))
+		case 1:
+			b.SetModelsRaw(200, tags("2222222222222222222222222222222222222222222222222222222222222222", "filler-"+b.Name))
+		default:
+			b.SetModels([]string{"filler-" + b.Name})
+		}
+	}
+	for _, b := range backs {
+		if err := st.discover(b.Name); err != nil {
+			run.Inconclusive("discovery failed: " + err.Error())
+		}
+	}
+	st.settle()
+	defer func() {
+		for _, b := range backs {
+			b.SetModels([]string{"filler-" + b.Name})
+		}
+	}()
+	for H := 0; H < 1<<N; H++ {
+		for i, b := range backs {
+			st.setStatus(b.Name, H&(1<<i) != 0)
+		}
+		st.apply()
+		oneCase(run, c, st, hc, backs, N, H, 3, "proxy", "exact+mixed-case-two-digests", name, fmt.Sprintf("c%dmc%d", id, H))
+		run.Count("mixed_case_cases", 1)
 	}
 }
 
